@@ -6095,21 +6095,21 @@ static PyObject* hegv(PyObject *self, PyObject *args, PyObject *kwrds)
 #endif
     char uplo = 'L', jobz = 'N';
     char *kwlist[] = {"A", "B", "W", "itype", "jobz", "uplo", "n",
-        "ldA", "offsetA", "offsetB", "offsetW", NULL};
+        "ldA", "ldB", "offsetA", "offsetB", "offsetW", NULL};
 #if 0
     int ispec=1, n2=-1, n3=-1, n4=-1;
     char *name = "zhetrd", *uplol = "L", *uplou = "U";
 #endif
 
 #if PY_MAJOR_VERSION >= 3
-    if (!PyArg_ParseTupleAndKeywords(args, kwrds, "OOO|iCCiiiii",
+    if (!PyArg_ParseTupleAndKeywords(args, kwrds, "OOO|iCCiiiiii",
         kwlist, &A, &B, &W, &itype, &jobz_, &uplo_, &n, &ldA, &ldB, &oA,
         &oB, &oW)) 
         return NULL;
     uplo = (char) uplo_;
     jobz = (char) jobz_;
 #else
-    if (!PyArg_ParseTupleAndKeywords(args, kwrds, "OOO|icciiiii",
+    if (!PyArg_ParseTupleAndKeywords(args, kwrds, "OOO|icciiiiii",
         kwlist, &A, &B, &W, &itype, &jobz, &uplo, &n, &ldA, &ldB, &oA,
         &oB, &oW)) 
         return NULL;
